@@ -6,7 +6,7 @@ DROPPING = ("filter", "take", "skip", "take_while", "skip_while", "step_by", "ma
 
 def run(ctx, rep):
     r = rep.rule("R-C13-dir", "checking a directory is checking the list of its entries: the iterator chain from read_dir to the returned Vec only "
-                              "drops unreadable entries (Err), and create_project pushes every enumerated path into the project", floor=4)
+                              "drops unreadable entries (Err), and create_project pushes every enumerated path into the project", floor=5)
     eb = ctx.prog.get("ironplcc::cli::enumerate_files")
     cb = ctx.prog.get("ironplcc::cli::create_project")
     if not eb or not cb:
@@ -80,6 +80,7 @@ def run(ctx, rep):
             if d and d[0] == "stmt" and d[3][0] == "agg" and d[3][1].get("k") == "closure":
                 for clo in ctx.prog.get(norm(d[3][1]["def"])):
                     ok = False
+                    filetest = False
                     for i in sorted(clo.reachable(0)):
                         si = switch_info(clo, i)
                         if si and si["kind"] == "disc" and si.get("adt") == "core::result::Result":
@@ -87,15 +88,37 @@ def run(ctx, rep):
                                 if labs == ["Ok"]:
                                     other = [s for s, l in si["edges"].items() if l != ["Ok"]]
                                     region = clo.reachable(succ, avoid=set(other))
-                                    nones = [1 for bi, _, s in clo.all_stmts() if bi in region and s[0] == "=" and s[2][0] == "agg" and s[2][1].get("adt") == "core::option::Option" and s[2][1]["variant"] == "None"]
-                                    branches = [1 for bi in region if clo.term(bi)[0] == "switch" and not any((switch_info(clo, bi) or {}).get("adt") == "core::result::Result" for _ in [0])]
-                                    ok = not nones and not branches
+                                    # branches on the Ok arm: only "is this entry a file?" may decide whether the entry is kept
+                                    foreign = []
+                                    for bi in sorted(region):
+                                        if clo.term(bi)[0] != "switch":
+                                            continue
+                                        s2 = switch_info(clo, bi)
+                                        if s2 and s2.get("adt") == "core::result::Result":
+                                            continue
+                                        if s2 and s2["kind"] == "bool" and s2["subject"][0] == "call" and (s2["subject"][1].callee or "").endswith("::is_file"):
+                                            filetest = True
+                                            continue
+                                        if s2 and s2["kind"] == "bool" and s2["subject"][0] == "place" and not s2["subject"][1][1]:
+                                            ds = clo.defs.get(s2["subject"][1][0], [])
+                                            if ds and all(d_[0] == "stmt" and d_[3][0] == "use" and d_[3][1][0] == "c" for d_ in ds):
+                                                continue        # a drop flag (only ever assigned constants): drop elaboration, not a decision
+                                        foreign.append(bi)
+                                    somes = [1 for bi, _, s in clo.all_stmts() if bi in region and s[0] == "=" and s[2][0] == "agg" and s[2][1].get("adt") == "core::option::Option" and s[2][1]["variant"] == "Some"]
+                                    nones = [bi for bi, _, s in clo.all_stmts() if bi in region and s[0] == "=" and s[2][0] == "agg" and s[2][1].get("adt") == "core::option::Option" and s[2][1]["variant"] == "None"]
+                                    ok = bool(somes) and not foreign and (filetest or not nones)
                             break
-                    inst = "enumerate_files|filter_map keeps every readable entry"
+                    inst = "enumerate_files|filter_map keeps every readable file"
                     if ok:
-                        r.ok(inst, where)
+                        r.ok(inst, where, "the only test on a readable entry is is_file()" if filetest else "no test on a readable entry")
                     else:
-                        r.finding("enumerate_files|filter_map-drops-entries", where, "the filter_map closure can return None for a readable directory entry")
+                        r.finding("enumerate_files|filter_map-drops-entries", where, "the filter_map closure can return None for a readable file of the directory (a test other than is_file() decides)")
+                    # "the files in it": an entry that is not a file (a sub-directory) is not a source
+                    if filetest:
+                        r.ok("enumerate_files|only files are listed", where, "entries are kept on the true edge of is_file()")
+                    else:
+                        r.finding("enumerate_files|entries-not-files", where, "every readable entry of the directory is returned as a source file, directories included: `check dir` fails with P0026 "
+                                  "on a sub-directory while `check` of the files in it succeeds")
     # create_project: the loop over the enumerated files pushes each one
     p = cb[0]
     pushes = [c for c in p.calls() if c.callee == "ironplcc::project::FileBackedProject::push"]
